@@ -71,18 +71,10 @@ WITNESSES = [
     {'theorem': 'completes_iff_all_done_full_fails', 'n': 2, 'conc': None,
      'kind': 'cancelled-item-completes-task-before-all-items',
      'ops': [S, R(0, 'CANCELLED'), H]},
-    # the input of item 3 fails to evaluate; with limit 2 it is evaluated by the completion job that reaches it
-    {'theorem': 'error_task_has_no_running_child_full_fails', 'n': 4, 'conc': 2,
-     'eval': {'items': 'list', 'input': 'div-inline', 'bad': [3]},
-     'kind': 'task-completed-before-all-items',
-     'ops': [S, R(0, 'SUCCESS'), H, R(1, 'SUCCESS'), H]},
-    {'theorem': 'running_le_concurrency_all_tables_full_fails', 'n': 4, 'conc': 2,
-     'eval': {'items': 'list', 'input': 'div-inline', 'bad': [3]},
-     'kind': 'running-exceeds-concurrency',
-     'ops': [S, R(0, 'SUCCESS'), H, R(1, 'SUCCESS'), H, {'op': 'rerun', 'reset': True}]},
 ]
-# former counter-witnesses of index_started_once / rerun_only_failed (fixed by /repo 494951d1): now
-# regressions in corpus/C07 (k1_*, k2_*) that must run without any monitor hit or disagreement
+# former counter-witnesses of index_started_once / rerun_only_failed (fixed by /repo 494951d1) and of
+# running_le_concurrency_all_tables / error_task_has_no_running_child (fixed by repo patch 30): now
+# regressions in corpus/C07 (k1_*, k2_*, k4_*, k5_*) that must run without any monitor hit or disagreement
 
 
 def witness_case(drv, w):
